@@ -1,6 +1,8 @@
 package rules
 
 import (
+	"go/token"
+
 	"golang.org/x/tools/go/ssa"
 
 	"refcheck/internal/eng"
@@ -141,6 +143,69 @@ func c16(x *Ctx) {
 	})
 	c.Min(r2, 5)
 
+	// ---- clause 2b: a shallow copy of the event shares its maps and buffers with the original ----------
+	// (`probe := *ev` copies the struct; Payload's memoized map, raw bytes and other reference fields are
+	// shared, so a write through them alters the event that was – or will be – handed on)
+	const r2b = "C16.copy-writes-own-memory"
+	metaKeys := x.metadataKeys()
+	var copies []*ssa.Alloc
+	eng.Instrs(pe, func(in ssa.Instruction) {
+		st, ok := in.(*ssa.Store)
+		if !ok {
+			return
+		}
+		al, ok := st.Addr.(*ssa.Alloc)
+		if !ok {
+			return
+		}
+		if u, ok := st.Val.(*ssa.UnOp); ok && u.Op == token.MUL && derivesFrom(u.X, rs.ev) && typeString(u.Type()) == "types.Event" {
+			copies = append(copies, al)
+		}
+	})
+	for _, al := range copies {
+		c.Examined++
+		var bad ssa.Instruction
+		why := ""
+		eng.Instrs(pe, func(in ssa.Instruction) {
+			if bad != nil {
+				return
+			}
+			switch y := in.(type) {
+			case *ssa.Store:
+				if r, ref := addrRootDeep(y.Addr); r == ssa.Value(al) && ref {
+					bad, why = in, "a store through a pointer or slice field of the copy"
+				}
+			case *ssa.MapUpdate:
+				if r, _ := addrRootDeep(y.Map); r == ssa.Value(al) {
+					bad, why = in, "an update of a map field of the copy"
+				}
+			case *ssa.Call:
+				cal := y.Call.StaticCallee()
+				if cal == nil || cal.Signature.Recv() == nil || len(y.Call.Args) == 0 {
+					return
+				}
+				r, ref := addrRootDeep(y.Call.Args[0])
+				if r != ssa.Value(al) {
+					return
+				}
+				if eng.SSAFuncName(cal) == nPayloadSet {
+					// Set stores keys of the metadata table in dedicated struct fields (owned by the copy), everything else in the shared map
+					if k, ok := eng.ConstString(y.Call.Args[1]); ok && metaKeys[k] && !ref {
+						return
+					}
+				}
+				if ref && x.isMutator(cal, 1) || !ref && x.writesShared(cal, 2) {
+					bad, why = in, "a call of "+FName(cal)+", which writes memory the copy shares with the original (map / pointer / slice field)"
+				}
+			}
+		})
+		if bad != nil {
+			c.Violate(r2b, "processEvent/"+al.Comment, x.Pos(bad), "the event is copied shallowly ("+x.Pos(al)+") and the copy is then modified by "+why+": the original event – the span queued for Honeycomb – is altered too")
+		} else {
+			c.Hold(r2b, "processEvent/"+al.Comment, x.Pos(al), "only the copy's own struct fields are written")
+		}
+	}
+
 	// ---- clause 3: probes -----------------------------------------------------------------------
 	const r3 = "C16.probes-stay-internal"
 	probeF := func(fr eng.FieldRef) bool { return fr.Name == "HasValue" || fr.Name == "Value" }
@@ -168,16 +233,22 @@ func c16(x *Ctx) {
 		c.Hold(r3, "processEvent/received-probe", x.PosOf(pe.Pos()), "received probe ⇒ no sink")
 	}
 	// events marked as probe here only go to the peer transmission
+	probeKey, _ := x.constStr(r3, "types", "MetaRefineryProbe")
 	eng.Instrs(pe, func(in ssa.Instruction) {
-		cl, ok := eng.IsCall(in, "(*types.nullableBool).Set")
-		if !ok {
-			return
-		}
-		fr, _, ok := eng.FieldRefOf(eng.Receiver(cl))
-		if !ok || fr.Name != "MetaRefineryProbe" {
-			return
-		}
-		if k, ok := eng.CallArgs(cl)[0].(*ssa.Const); !ok || k.Value.String() != "true" {
+		// the two ways the code base marks an event as a probe: the dedicated field's Set(true), or Payload.Set with the probe key
+		if cl, ok := eng.IsCall(in, "(*types.nullableBool).Set"); ok {
+			fr, _, ok := eng.FieldRefOf(eng.Receiver(cl))
+			if !ok || fr.Name != "MetaRefineryProbe" {
+				return
+			}
+			if k, ok := eng.CallArgs(cl)[0].(*ssa.Const); !ok || k.Value.String() != "true" {
+				return
+			}
+		} else if cl, ok := eng.IsCall(in, nPayloadSet); ok {
+			if k, ok := eng.ConstString(eng.CallArgs(cl)[0]); !ok || k != probeKey {
+				return
+			}
+		} else {
 			return
 		}
 		r := eng.Explore(eng.Query{Fn: pe, Start: in, Classify: func(i2 ssa.Instruction, _ eng.Facts) eng.Event {
